@@ -159,6 +159,9 @@ func (tw *timeoutWriter) writeHeaderLocked(code int) {
 	switch {
 	case tw.timedOut:
 		return
+	case code >= 100 && code <= 199 && code != http.StatusSwitchingProtocols:
+		// 信息性响应（100/102/103）不是最终状态码：缓冲的响应继续等待真正的状态码。
+		return
 	case tw.wroteHeader:
 		if tw.req != nil {
 			caller := relevantCaller()
